@@ -1,6 +1,6 @@
 use crate::engine::core::filter::filter_group::{FilterGroup, filter_key};
 use crate::engine::core::{CandidateZone, LogicalOp, QueryCaches, QueryPlan, ZoneCombiner};
-use std::collections::{HashMap, HashSet};
+use std::collections::HashMap;
 
 /// Collects zones from FilterGroup tree, preserving logical structure.
 ///
@@ -76,17 +76,17 @@ impl<'a> ZoneGroupCollector<'a> {
         }
     }
 
-    /// Handles NOT operations intelligently:
-    /// - For NOT(Filter): Get all zones for segments, subtract zones matching the filter
+    /// Handles NOT operations:
+    /// - For NOT(Filter): all zones of the segments (see below)
     /// - For NOT(AND): Apply De Morgan's law: NOT A OR NOT B OR ...
     /// - For NOT(OR): Apply De Morgan's law: NOT A AND NOT B AND ...
     fn handle_not(&self, child: &FilterGroup) -> Vec<CandidateZone> {
         match child {
-            // NOT(Filter): Compute complement - all zones minus zones matching filter
-            FilterGroup::Filter { .. } => {
-                let matching_zones = self.collect_zones_from_group(child);
-                self.compute_complement(&matching_zones)
-            }
+            // NOT(Filter): the zones selected for the filter are the zones that *may* hold a
+            // matching row; such a zone usually holds non-matching rows as well, so nothing can
+            // be ruled out for the negation - every zone stays a candidate and the row filter
+            // decides.
+            FilterGroup::Filter { .. } => self.get_all_zones_for_segments(self.plan, self.caches),
             // NOT(AND): De Morgan's law -> NOT A OR NOT B OR ...
             FilterGroup::And(children) => {
                 let not_children: Vec<FilterGroup> = children
@@ -106,44 +106,6 @@ impl<'a> ZoneGroupCollector<'a> {
             // NOT(NOT X): Double negation -> X
             FilterGroup::Not(grandchild) => self.collect_zones_from_group(grandchild),
         }
-    }
-
-    /// Computes zone complement: all zones for segments minus zones matching the filter
-    fn compute_complement(&self, matching_zones: &[CandidateZone]) -> Vec<CandidateZone> {
-        let plan = self.plan;
-        let caches = self.caches;
-
-        // Get all zones for all segments in the plan
-        let all_zones = self.get_all_zones_for_segments(plan, caches);
-
-        if matching_zones.is_empty() {
-            // No matching zones means all zones match NOT
-            return all_zones;
-        }
-
-        // Create a set of matching zone keys for fast lookup
-        let matching_keys: HashSet<(u32, String)> = matching_zones
-            .iter()
-            .map(|z| (z.zone_id, z.segment_id.clone()))
-            .collect();
-
-        // Return zones that are in all_zones but NOT in matching_zones
-        let complement: Vec<CandidateZone> = all_zones
-            .into_iter()
-            .filter(|z| !matching_keys.contains(&(z.zone_id, z.segment_id.clone())))
-            .collect();
-
-        if tracing::enabled!(tracing::Level::DEBUG) {
-            tracing::debug!(
-                target: "sneldb::zone_group_collector",
-                matching_count = matching_zones.len(),
-                all_count = matching_keys.len(),
-                complement_count = complement.len(),
-                "Computed NOT complement"
-            );
-        }
-
-        complement
     }
 
     /// Gets all zones for segments in the query plan
